@@ -10,6 +10,15 @@ Lib/DecArith.vos Lib/DecArith.vok Lib/DecArith.required_vos: Lib/DecArith.v Lib/
 Lib/DecFacts.vo Lib/DecFacts.glob Lib/DecFacts.v.beautified Lib/DecFacts.required_vo: Lib/DecFacts.v Lib/Base.vo Lib/DecArith.vo
 Lib/DecFacts.vio: Lib/DecFacts.v Lib/Base.vio Lib/DecArith.vio
 Lib/DecFacts.vos Lib/DecFacts.vok Lib/DecFacts.required_vos: Lib/DecFacts.v Lib/Base.vos Lib/DecArith.vos
+Lib/FLedger.vo Lib/FLedger.glob Lib/FLedger.v.beautified Lib/FLedger.required_vo: Lib/FLedger.v Lib/Base.vo
+Lib/FLedger.vio: Lib/FLedger.v Lib/Base.vio
+Lib/FLedger.vos Lib/FLedger.vok Lib/FLedger.required_vos: Lib/FLedger.v Lib/Base.vos
+Model/English.vo Model/English.glob Model/English.v.beautified Model/English.required_vo: Model/English.v Lib/Base.vo Lib/DecArith.vo Lib/FLedger.vo
+Model/English.vio: Model/English.v Lib/Base.vio Lib/DecArith.vio Lib/FLedger.vio
+Model/English.vos Model/English.vok Model/English.required_vos: Model/English.v Lib/Base.vos Lib/DecArith.vos Lib/FLedger.vos
+Model/LimitBid.vo Model/LimitBid.glob Model/LimitBid.v.beautified Model/LimitBid.required_vo: Model/LimitBid.v Lib/Base.vo Lib/DecArith.vo Lib/FLedger.vo
+Model/LimitBid.vio: Model/LimitBid.v Lib/Base.vio Lib/DecArith.vio Lib/FLedger.vio
+Model/LimitBid.vos Model/LimitBid.vok Model/LimitBid.required_vos: Model/LimitBid.v Lib/Base.vos Lib/DecArith.vos Lib/FLedger.vos
 Model/Market.vo Model/Market.glob Model/Market.v.beautified Model/Market.required_vo: Model/Market.v Lib/Base.vo
 Model/Market.vio: Model/Market.v Lib/Base.vio
 Model/Market.vos Model/Market.vok Model/Market.required_vos: Model/Market.v Lib/Base.vos
